@@ -15,6 +15,7 @@ import (
 	"time"
 
 	"github.com/grailbio/base/errors"
+	"github.com/grailbio/bigslice/exec"
 	"verifharness/prog"
 	"verifharness/vf"
 )
@@ -75,6 +76,9 @@ func modeTerm(m string) string {
 
 func child() {
 	prog.MakeTemp = func(msg string) error { return errors.E(errors.Temporary, msg) }
+	// machines that returned errors sit out ProbationTimeout (30 s) before they get
+	// work again; retries of temporary failures would take minutes of wall clock
+	exec.ProbationTimeout = 200 * time.Millisecond
 	in := bufio.NewReader(os.Stdin)
 	dec := json.NewDecoder(in)
 	enc := json.NewEncoder(os.Stdout)
@@ -90,7 +94,7 @@ func child() {
 			s = prog.Start(sc.Cfg)
 			sessions[key] = s
 		}
-		o, _ := prog.RunOnce(s, sc.Prog, "", 40*time.Second)
+		o, _ := prog.RunOnce(s, sc.Prog, "", 20*time.Second)
 		out := Outcome{Err: o.Err, Msg: o.ErrMsg, Fires: o.Fires, Obs: o, Wall: o.Wall}
 		if o.Err == "timeout" || o.Err == "hang" {
 			// the session may be wedged; the follow-up is still attempted, briefly
@@ -239,9 +243,11 @@ func genScenario(r *vf.Rand, i int) (Scenario, bool) {
 	default:
 		modes = []string{"panic"}
 	}
-	f := &prog.Fail{Mode: modes[r.Intn(len(modes))], Shard: -1, Row: r.Pick([]int{1, 1, 2, 5, 127, 128, 129, 100000})}
+	f := &prog.Fail{Mode: modes[r.Intn(len(modes))], Shard: -1, Row: r.Pick([]int{1, 1, 1, 2, 2, 5, 128, 129, 100000})}
 	if f.Mode == "temp" {
-		f.Once = r.Bool()
+		// persistent temporary failures on bigmachine run into the known unbounded
+		// RetryCall loop and cost a full timeout each: keep them rare
+		f.Once = r.Bool() || (i%2 == 1 && r.Chance(2, 3))
 	}
 	p.Nodes[k].Fail = f
 	cfg := prog.Cfg{Kind: "local", Parallelism: 4}
